@@ -166,6 +166,26 @@ def wf_retry() -> Any:
                                    make_step("flaky", [A], [StopEvent], flaky, retry_policy=retry_policy(wait=wait_fixed(0), stop=stop_after_attempt(4)))])
 
 
+def wf_retry_timebound() -> Any:
+    """as ``retry``, under a TIME-bounded policy (give up 5 s after the first attempt); the restarted server comes up 10 s later - the
+    replayed log must lead to the decisions the live run took (they are in the ticks), whatever the clock says at the restart"""
+    from workflows.retry_policy import stop_after_delay
+
+    async def s1(self, ctx, ev, inv):  # noqa: ANN001
+        await gate("s1")
+        return A(uid=1)
+
+    async def flaky(self, ctx, ev, inv):  # noqa: ANN001
+        n = ctx.retry_info().retry_number
+        await gate(f"flaky{n}")
+        if n < 2:
+            raise RuntimeError(f"fail{n}")
+        return StopEvent(result=f"retry:{n}")
+
+    return make_workflow("RetryTimebound", [make_step("s1", [StartEvent], [A], s1),
+                                            make_step("flaky", [A], [StopEvent], flaky, retry_policy=retry_policy(wait=wait_fixed(0), stop=stop_after_delay(5.0)))])
+
+
 def wf_recover() -> Any:
     async def s1(self, ctx, ev, inv):  # noqa: ANN001
         await gate("s1")
@@ -231,6 +251,7 @@ PROGRAMS: dict[str, dict[str, Any]] = {
     "fan_keeper_returned": {"make": wf_fan_keeper_returned, "expected": "fanin:10,20", "responses": []},
     "queue_order": {"make": wf_queue_order, "expected": "order:0,1,2", "responses": []},
     "retry": {"make": wf_retry, "expected": "retry:2", "responses": []},
+    "retry_timebound": {"make": wf_retry_timebound, "expected": "retry:2", "responses": [], "downtime": 10.0},
     "recover": {"make": wf_recover, "expected": "recovered:s1:ValueError", "responses": []},
     "wait": {"make": lambda: wf_wait(False), "expected": "wait:any:100", "responses": [("any", 100)]},
     "wait_requirements": {"make": lambda: wf_wait(True), "expected": "wait:good:101", "responses": [("bad", 100), ("good", 101)]},
@@ -413,12 +434,16 @@ def execute(ex: Execution, pname: str, backend: str, crash_at: int | None, netwo
     if network:
         sh.make_yielding(store2, ticks=True)
     loop2 = VLoop()
-    loop2.vt = vt
+    loop2.vt = vt + float(prog.get("downtime", 0.0))  # (the restarted server may come up much later than the old one stopped)
     third_restart = False
     obs: dict[str, Any] = {}
     # (with a write fault the server's own backoff has to elapse before it writes again, so time may pass there)
     with EngineExec(ex, RunConfig(max_actions=120, allow_time=restart_fault), loop=loop2) as e2:
         ticks = _persisted_ticks(loop2, store2, "run1")
+        if prog.get("downtime") and sum(1 for td in ticks if td.get("type") == "step_result" and any(r.get("type") == "failed" for r in td.get("result", []))) < 2:
+            # an attempt that fails AFTER the downtime is judged by the policy with the downtime included - rightly so; only stops after
+            # the last failure (every retry decision is in the log, nothing time-dependent is left to do) are comparable
+            return {"skipped": True, "_metrics": {"max_concurrency": 1}}, []
         ended = any(_is_terminal_tick(td, pname) for td in ticks)
         h_at_crash = _handler(loop2, store2)
         idle_since_at_crash = getattr(h_at_crash, "idle_since", None)
